@@ -314,6 +314,10 @@ class GenericPlainRegistry(Generic[QuantityT, UnitT], metaclass=RegistryMeta):
         #: Map suffix name (string) to canonical , and unit alias to canonical unit name
         self._suffixes: dict[str, str] = {"": "", "s": ""}
 
+        #: Names of the prefixed units that get_name registered on the fly.
+        #: They denote prefix + unit and are not units to be prefixed again.
+        self._prefixed_units: set[str] = set()
+
         #: Map contexts to RegistryCache
         self._cache = RegistryCache()
 
@@ -541,6 +545,8 @@ class GenericPlainRegistry(Generic[QuantityT, UnitT], metaclass=RegistryMeta):
                 logger.warning(f"Redefining '{key}' ({type(value)})")
 
         target_dict[key] = value
+        if target_dict is self._units:
+            self._prefixed_units.discard(key)
         if casei_target_dict is not None:
             casei_target_dict[key.lower()].add(key)
 
@@ -686,6 +692,7 @@ class GenericPlainRegistry(Generic[QuantityT, UnitT], metaclass=RegistryMeta):
                 prefix_def.converter,
                 self.UnitsContainer({unit_name: 1}),
             )
+            self._prefixed_units.add(name)
             return prefix + unit_name
 
         return unit_name
@@ -1142,7 +1149,9 @@ class GenericPlainRegistry(Generic[QuantityT, UnitT], metaclass=RegistryMeta):
                     if len(name) == 1:
                         continue
                 if case_sensitive:
-                    if name in self._units:
+                    if name in self._units and not (
+                        prefix and name in self._prefixed_units
+                    ):
                         yield (
                             self._prefixes[prefix].name,
                             self._units[name].name,
